@@ -187,6 +187,12 @@ fn check_v2(input: &[u8]) -> Option<Mismatch> {
     if actual != want { return Some(Mismatch { case: hex(input), expected: format!("{:?}", want), actual: format!("{:?}", actual) }); }
     let inc = matches!(&got, Err(v2::ParseError::Incomplete(_)) | Err(v2::ParseError::Partial(_, _)));
     if got.is_incomplete() != inc { return Some(Mismatch { case: hex(input), expected: format!("is_incomplete == {}", inc), actual: format!("{}", got.is_incomplete()) }); }
+    if got.is_complete() == inc { return Some(Mismatch { case: hex(input), expected: format!("is_complete == {}", !inc), actual: format!("{}", got.is_complete()) }); }
+    if let Err(e) = &got {
+        if e.is_incomplete() != inc || e.is_complete() == inc {
+            return Some(Mismatch { case: hex(input), expected: format!("error.is_incomplete == {} and is_complete == {}", inc, !inc), actual: format!("is_incomplete == {}, is_complete == {}", e.is_incomplete(), e.is_complete()) });
+        }
+    }
     if let Ok(h) = &got {
         let r = std::panic::catch_unwind(|| {
             let fam = fam_size(input[13] & 0xF0);
